@@ -32,6 +32,9 @@ type Rig struct {
 	LimboTEID map[int]int
 }
 
+// fuzzMode: the process is a worker of a native fuzzing campaign (fuzz_test.go)
+var fuzzMode bool
+
 var (
 	rigMu   sync.Mutex
 	rigs    = map[string]*Rig{}
@@ -46,6 +49,13 @@ func nextAddr() (n4 string, httpPort int) {
 	// unique per rig for 62500 rigs: an abandoned agent keeps listening (SO_REUSEPORT), so an address
 	// must never be reused within a process or datagrams could be delivered to the old instance
 	n4 = fmt.Sprintf("127.%d.%d.%d", 100+shard%100, (rigN/250)%250, 1+rigN%250)
+	if fuzzMode {
+		// fuzz workers are processes of their own inside one network namespace: addresses and ports by pid
+		pid := os.Getpid()
+		n4 = fmt.Sprintf("127.%d.%d.%d", 100+pid%100, (pid/100)%250, 1+rigN%250)
+		httpPort = 10000 + (pid%200)*250 + rigN%250
+		return
+	}
 	if rig.HaveNetns() {
 		httpPort = 10000 + rigN%50000
 	} else {
